@@ -156,6 +156,25 @@ T_UNREGN_HEAD = """{ <count>; if(<attop>){ <pop>; if(!gap_list_.empty()){ Gap&la
  else{"""
 
 
+def tail_template(gap_ins, gap_push):
+    return """enum{ADDED_AT_BASE,ADDED_AT_TOP,NEW_GAP,NOT_FOUND}status=NOT_FOUND;
+ if(!gap_list_.empty()&&most_recent_gap_!=gap_list_.end()){ Gap&current_gap=*most_recent_gap_;
+  if(<cb_c>){<cb_u>;status=ADDED_AT_BASE;} elseif(<ct_c>){<ct_u>;status=ADDED_AT_TOP;} }
+ if(status==NOT_FOUND){ for(GapListIteratorit=gap_list_.begin();it!=gap_list_.end();it++){ if(<s_le>){
+   if(<sb_c>){status=ADDED_AT_BASE;<sb_u>;most_recent_gap_=it;}
+   elseif(<st_c>){status=ADDED_AT_TOP;<st_u>;most_recent_gap_=it;}
+   else{most_recent_gap_=gap_list_.insert(it,%s);status=NEW_GAP;} break; } }
+  if(status==NOT_FOUND){gap_list_.push_back(%s);most_recent_gap_=gap_list_.end();most_recent_gap_--;} }
+ if(status==ADDED_AT_BASE&&most_recent_gap_!=gap_list_.begin()){ GapListIteratorit=most_recent_gap_;it--;
+  if(<mb_c>){<mb_u>;gap_list_.erase(it);} }
+ elseif(status==ADDED_AT_TOP){ GapListIteratorit=most_recent_gap_;it++;
+  if(it!=gap_list_.end()&&<mt_c>){<mt_u>;gap_list_.erase(it);} }""" % (gap_ins, gap_push)
+
+
+T_TAIL_N = "{" + tail_template("Gap(<ng_a>,<ng_b>)", "Gap(<pg_a>,<pg_b>)") + "}"
+T_TAIL_1 = "{" + tail_template("Gap(<ng_a>)", "Gap(<pg_a>)") + "}"
+
+
 def main():
     h = S.strip(open(os.path.join(REPO, "include/adept/Stack.h")).read())
     c = S.strip(open(os.path.join(REPO, "adept/Stack.cpp")).read())
@@ -220,6 +239,43 @@ def main():
     if k < 0:
         die("unregister_gradients: the not-at-top branch does not start with the status enum")
     unreg("un", match(T_UNREGN_HEAD, b[:k + len("else{")], w), "n", w)
+
+    # ---- the not-at-top path: unregister_gradient_not_top(idx) and the else branch of unregister_gradients(idx,n)
+    def tail(prefix, g, withn, w):
+        extra = ["n"] if withn else []
+        base = {"gradient_index": "idx"}
+        if withn:
+            base["n"] = "n"
+        cur = dict(base); cur.update({"current_gap.start": "a", "current_gap.end": "b"})
+        it = dict(base); it.update({"it->start": "a", "it->end": "b"})
+        mb = {"it->start": "pa", "it->end": "pb", "most_recent_gap_->start": "a", "most_recent_gap_->end": "b"}
+        emit(prefix + "_cb_c", ["idx", "a", "b"] + extra, "bool", cond(g["cb_c"], cur, w))
+        emit(prefix + "_cb_u", ["a", "b"] + extra, "Z", update(g["cb_u"], "current_gap.start", cur, w))
+        emit(prefix + "_ct_c", ["idx", "a", "b"] + extra, "bool", cond(g["ct_c"], cur, w))
+        emit(prefix + "_ct_u", ["a", "b"] + extra, "Z", update(g["ct_u"], "current_gap.end", cur, w))
+        emit(prefix + "_s_le", ["idx", "a", "b"] + extra, "bool", cond(g["s_le"], it, w))
+        emit(prefix + "_sb_c", ["idx", "a", "b"] + extra, "bool", cond(g["sb_c"], it, w))
+        emit(prefix + "_sb_u", ["a", "b"] + extra, "Z", update(g["sb_u"], "it->start", it, w))
+        emit(prefix + "_st_c", ["idx", "a", "b"] + extra, "bool", cond(g["st_c"], it, w))
+        emit(prefix + "_st_u", ["a", "b"] + extra, "Z", update(g["st_u"], "it->end", it, w))
+        emit(prefix + "_ng_a", ["idx"] + extra, "Z", arith(g["ng_a"], base, w))
+        emit(prefix + "_ng_b", ["idx"] + extra, "Z", arith(g.get("ng_b", g["ng_a"]), base, w))
+        emit(prefix + "_pg_a", ["idx"] + extra, "Z", arith(g["pg_a"], base, w))
+        emit(prefix + "_pg_b", ["idx"] + extra, "Z", arith(g.get("pg_b", g["pg_a"]), base, w))
+        emit(prefix + "_mb_c", ["pa", "pb", "a", "b"], "bool", cond(g["mb_c"], mb, w))
+        emit(prefix + "_mb_u", ["pa", "pb", "a", "b"], "Z", update(g["mb_u"], "most_recent_gap_->start", mb, w))
+        emit(prefix + "_mt_c", ["pa", "pb", "a", "b"], "bool", cond(g["mt_c"], mb, w))
+        emit(prefix + "_mt_u", ["pa", "pb", "a", "b"], "Z", update(g["mt_u"], "most_recent_gap_->end", mb, w))
+        out.append("")
+
+    # Gap(value) is the one-element gap [value, value]
+    if not re.search(r"Gap\s*\(\s*uIndex\s+value\s*\)\s*:\s*start\s*\(\s*value\s*\)\s*,\s*end\s*\(\s*value\s*\)", h) or \
+       not re.search(r"Gap\s*\(\s*uIndex\s+start_\s*,\s*uIndex\s+end_\s*\)\s*:\s*start\s*\(\s*start_\s*\)\s*,\s*end\s*\(\s*end_\s*\)", h):
+        die("struct Gap: constructors not of the form Gap(value) : start(value), end(value) / Gap(start_, end_) : start(start_), end(end_)")
+    w = "unregister_gradient_not_top"
+    tail("x1", match(T_TAIL_1, body(c, r"Stack::unregister_gradient_not_top\s*\(\s*const\s+uIndex\s*&\s*gradient_index\s*\)\s*\{", w), w), False, w)
+    w = "unregister_gradients (not at top)"
+    tail("xn", match(T_TAIL_N, "{" + b[k + len("else{"):-1], w), True, w)
     sys.stdout.write("\n".join(out))
 
 
